@@ -198,6 +198,21 @@ def run_case(case, res):
                     res.candidate(("region-witness:" if known else "") + "quantize-raises", "side", enc, exact=not known)
                     continue
                 qm = model[0]
+                if a_t is not None and dt != torch.float32:
+                    # before calibration the scale buffers are float32 ones whatever the module dtype
+                    try:
+                        with torch.no_grad():
+                            y0 = qm(x)
+                        ok0 = (y0.dequantize() if isinstance(y0, QTensor) else y0).dtype == dt
+                        why0 = f"output dtype {(y0.dequantize() if isinstance(y0, QTensor) else y0).dtype}"
+                    except Exception as e:  # noqa
+                        ok0, why0 = False, f"{type(e).__name__}: {e}"
+                    res.side_ok("uncalibrated-16-bit-module-runs-in-its-dtype", ok0, f"{cfg}: {why0}")
+                    if not ok0:
+                        res.side[-1]["replayed"] = True
+                        e0 = dict(enc)
+                        e0["kind"] = "uncalibrated"
+                        res.candidate("region-witness:uncalibrated-16bit", "side", e0, exact=False)
                 if a_t is not None:
                     models.set_scales(model, 0.05, 0.09)
                     m.symbolic(qm.input_scale, "s_in")
@@ -413,6 +428,16 @@ def replay(rec):
         key = ["C08/layernorm-without-affine"] if inp["module"] == "lnorm" and LNORMS[inp["conf"]].get("elementwise_affine") is False else None
         return True, f"quantize() raised {type(e).__name__}: {e}", key
     qm = model[0]
+    if inp["kind"] == "uncalibrated":
+        try:
+            with torch.no_grad():
+                y0 = qm(x)
+            y0 = y0.dequantize() if isinstance(y0, QTensor) else y0
+            bad = y0.dtype != dt
+            why = f"output dtype {y0.dtype} for a {dt} module"
+        except Exception as e:  # noqa
+            bad, why = True, f"{type(e).__name__}: {e}"
+        return bad, f"uncalibrated {inp['module']} with quantized activations: {why}", (["C08/uncalibrated-16bit-module-float32-scales"] if bad else None)
     if a_t is not None:
         models.set_scales(model, 0.05, 0.09)
     fm2, _ = make_module(inp["module"], inp["conf"], dt)
